@@ -520,7 +520,7 @@ func (c *Coord) record(caseID string, args json.RawMessage, out CaseOut) {
 	}
 	for _, v := range out.Viol {
 		fv := c.viol[v.Key]
-		if knownFinding(c.findings, c.Spec.ID, v.Key) == nil && os.Getenv("VERIF_NOFAILFAST") == "" {
+		if knownFinding(c.findings, c.Spec.ID, v.Key) == nil && os.Getenv("VERIF_NOFAILFAST") == "" && !c.Spec.NoFailFast {
 			c.stopFlag = true
 		}
 		if fv == nil {
